@@ -252,26 +252,30 @@ def pendingOf : List V → Option V
   | .null :: _ => none
   | m :: _ => some m
 
+/-- one iteration of `Spec.Walk` without the bookkeeping: `Step`, a stride made up when `Step`
+    returned none, and the transition to the error node when `Step` returned an error -/
+def walkStride (s : Spec) (st : State) (pending : Option V) : Stride :=
+  let out := step s st pending
+  let stride : Stride := match out.stride with
+    | some x => x
+    | none => { frm := stateCopy st, to := none, consumed := none, emitted := [] }
+  match out.err with
+  | none => stride
+  | some e =>
+    if st.node == "error" then stride
+    else
+      let b := insertB "lastBindings" (.obj (copyB st.bs))
+                (insertB "lastNode" (.str st.node)
+                  (insertB "error" (.str (errText s.name e)) (copyB st.bs)))
+      { stride with to := some { node := "error", bs := some b } }
+
 /-- the loop of `Spec.Walk`; the first argument counts the remaining iterations -/
 def walkLoop (s : Spec) (bp : State → Bool) :
     Nat → State → List V → List Stride → Walked
   | 0, _, pendings, acc => { strides := acc.reverse, remaining := pendings, stopped := .limited }
   | i+1, st, pendings, acc =>
     if bp st then { strides := acc.reverse, remaining := pendings, stopped := .breakpoint } else
-    let out := step s st (pendingOf pendings)
-    let stride : Stride := match out.stride with
-      | some x => x
-      | none => { frm := stateCopy st, to := none, consumed := none, emitted := [] }
-    let stride : Stride :=
-      match out.err with
-      | none => stride
-      | some e =>
-        if st.node == "error" then stride
-        else
-          let b := insertB "lastBindings" (.obj (copyB st.bs))
-                    (insertB "lastNode" (.str st.node)
-                      (insertB "error" (.str (errText s.name e)) (copyB st.bs)))
-          { stride with to := some { node := "error", bs := some b } }
+    let stride := walkStride s st (pendingOf pendings)
     let pendings' := if stride.consumed.isSome then pendings.drop 1 else pendings
     match stride.to with
     | none =>
@@ -296,3 +300,11 @@ def lastTo : List Stride → Option State
     | none => s.to
 /-- `Walked.To()`, falling back to the start state -/
 def finalState (st : State) (w : Walked) : State := (lastTo w.strides).getD st
+
+/-- a node that consumes a pending message: message branching and no action -/
+def canConsume (s : Spec) (node : String) : Bool :=
+  s.compiled &&
+    (match findNode node s.nodes with
+     | some n => n.action.isNone && !n.hasSource &&
+        (match n.branches with | some b => b.type == "message" | none => false)
+     | none => false)
